@@ -73,7 +73,7 @@ def choose_action(rng, w, focus, budget):
     ops = {"dict": ["set", "set", "del", "pop", "get", "clear", "update", "copy", "eq", "eq", "dsset", "dsset", "dssetbad", "dsupdatebad", "dsdel", "dspop", "dsget",
                     "dsmeta", "dsclear", "dsupdate", "dscopy", "dsdeepcopy", "deepcopy"],
            "rows": ["set", "set", "set", "del", "pop", "update", "index", "index", "index", "sortkey", "sortkey", "sortidx", "clear", "slice", "copy", "get"],
-           "alias": ["set", "set", "copy", "deepcopy", "slice", "slice", "ocopy", "iop", "iop", "iop", "iop", "dsset", "dscopy", "index", "sortidx", "get"]}[focus]
+           "alias": ["set", "set", "copy", "deepcopy", "slice", "slice", "ocopy", "to", "to", "iop", "iop", "iop", "iop", "dsset", "dscopy", "index", "sortidx", "get"]}[focus]
     for _ in range(50):
         op = rng.choice(ops)
         g = rng.randrange(len(G)) + 1
@@ -95,6 +95,11 @@ def choose_action(rng, w, focus, budget):
             return {"op": "index", "g": g, "kind": rng.choice(IDX)}
         if op == "slice" and len(O) < MAXOBJ:
             return {"op": "slice", "o": rng.randrange(len(O)) + 1, "kind": rng.choice([k for k in IDX if k not in ("maskArr", "iaArr")])}
+        if op == "to" and len(O) < MAXOBJ:
+            o = rng.randrange(len(O)) + 1
+            if str(O[o - 1].dtype) == "float32":
+                continue
+            return {"op": "to", "o": o, "u": rng.randrange(3) + 1}
         if op == "ocopy" and len(O) < MAXOBJ:
             return {"op": "ocopy", "o": rng.randrange(len(O)) + 1, "how": rng.choice(["copy", "deepcopy"])}
         if op == "sortkey" and len(grp) and grp.shape != () and len(O) + len(grp) <= MAXOBJ:
